@@ -471,7 +471,7 @@ Qed.
 
 Lemma update_largest_inv : forall j all v, SInv j all -> SInv (fst (update_largest j v)) all.
 Proof.
-  intros j all v I. unfold update_largest. destruct (s_next j <? v); cbn [fst]; [exact I|].
+  intros j all v I. unfold update_largest. destruct (s_next j <=? v); cbn [fst]; [exact I|].
   constructor; cbn [s_off s_recs s_queue s_la]; apply I.
 Qed.
 
@@ -647,7 +647,7 @@ Proof.
         by (symmetry; apply andb_true_iff; split; [apply Z.leb_le | apply Z.ltb_lt]; lia).
       exact Hs. }
     exists s. split; [|exact Ev]. eapply s_get_resize; eauto.
-  - inversion H; subst. unfold update_largest. destruct (s_next j <? v); cbn [fst]; [split; assumption|].
+  - inversion H; subst. unfold update_largest. destruct (s_next j <=? v); cbn [fst]; [split; assumption|].
     split; [exact Hlt|]. unfold in_flight in *. rewrite (s_get_same j); auto.
   - destruct (resize_spec j all now I) as (jn & n & Hfr & _ & Hnx & _ & Ho & Hn & Hr).
     rewrite Hfr in H. inversion H; subst.
@@ -744,7 +744,7 @@ Proof.
   - destruct (on_packet_acked j pn) as [[jn o]|] eqn:E; [|discriminate]. inversion H; subst. eapply feed_next; eauto.
   - destruct (may_loss_packet j pn) as [[jn o]|] eqn:E; [|discriminate]. inversion H; subst. eapply feed_next; eauto.
   - destruct (fast_retransmit j now) as [[jn o]|] eqn:E; [|discriminate]. inversion H; subst. eapply fast_next; eauto.
-  - inversion H; subst. unfold update_largest. destruct (s_next j <? v); reflexivity.
+  - inversion H; subst. unfold update_largest. destruct (s_next j <=? v); reflexivity.
   - destruct (resize j now) as [jn|] eqn:E; [|discriminate]. inversion H; subst. eapply resize_next; eauto.
 Qed.
 
